@@ -11,17 +11,11 @@ def prop(pid, **kw):
     PROPS[pid] = kw
 
 
-prop(
-    "C08",
-    level="exploration",
-    technique="runtime monitor: real RecvBuf vs byte-array reference model, checked after every operation; exhaustive for short streams",
-    level_text="Every observable of the real qrecovery::recv::RecvBuf (recv return, bytes produced by try_read/try_next, nread, "
-    "largest_offset, available, is_readable, running sum of recv returns) is compared with a byte-array reference model after every "
-    "operation of generated histories: exhaustively for all fragment sequences over short streams (quick: 5 bytes / <=3 fragments x 5 reader "
-    "actions, thorough: 6 bytes / <=4 fragments) and randomly for streams up to 64 KiB with heavy overlap, duplication and containment.",
-    level_note="Trusted: the reference model (40 lines) and the PRF content generator. Fragments are always consistent slices of one content, as the property states.",
-    design_ref="DESIGN.md §3 C08",
-    legs=[dict(name="recvbuf", crate="l1rec", sub="c08", shards={Q: 8, T: 16}, budget={Q: 2500, T: 40000}, timeout=1500)],
-    floors={Q: {"exhaustive_histories": 1_000_000, "random_step_checks": 100_000, "distinct": 1000}},
-    assumptions=["fragments are slices of one underlying byte sequence (the property's premise)", "single-threaded use of RecvBuf (it is owned by a mutex-protected receiver in production)"],
-)
+
+import glob, importlib.util, os, sys
+_d = os.path.join(os.path.dirname(os.path.abspath(__file__)), "props_d")
+sys.modules.setdefault("props", sys.modules[__name__])
+for _p in sorted(glob.glob(os.path.join(_d, "C*.py"))):
+    _spec = importlib.util.spec_from_file_location("props_d_" + os.path.basename(_p)[:-3], _p)
+    _m = importlib.util.module_from_spec(_spec)
+    _spec.loader.exec_module(_m)
